@@ -1769,7 +1769,14 @@ BTree_rangeSearch(BTree *self, PyObject *args, PyObject *kw, char type)
     {
         int bucketlen;
         highbucket = BTree_lastBucket(self);
-        assert(highbucket != NULL);  /* we know self isn't empty */
+        if (highbucket == NULL)
+        {
+            /* self isn't empty, so this is an error: a node on the way
+             * down could not be loaded.
+             */
+            Py_DECREF(lowbucket);
+            goto err;
+        }
         UNLESS (PER_USE(highbucket))
             goto err_and_decref_buckets;
         bucketlen = highbucket->len;
